@@ -15,6 +15,7 @@ mod c05;
 mod c06;
 mod c07;
 mod c08;
+mod c11;
 mod c12;
 mod c15;
 mod c16;
@@ -110,6 +111,7 @@ fn main() {
         "c08" => c08::run(&args, &mut out),
         "c10" => c08::run_c10(&args, &mut out),
         "scope" => scope::run(&args, &mut out),
+        "c11" => c11::run(&args, &mut out),
         "c12" => c12::run(&args, &mut out),
         "c13" => twin::run(&args, &mut out, "c13"),
         "c13r" => twin::run(&args, &mut out, "c13r"),
